@@ -3,6 +3,12 @@
 p='/verif/DESIGN.md'
 s=open(p).read()
 new=open('/verif/design_as_built.md').read()
+try:
+    res=open('/verif/seeded/RESULTS.md').read()
+    tbl='\n'.join(l for l in res.split('\n') if l.startswith('|') or l.startswith('Detected'))
+except Exception:
+    tbl='(run /verif/seeded/run_all_seeded.sh)'
+new=new.replace('SEEDED_RESULTS_TABLE', tbl)
 marker='## Appendix A. Contract sketches for the five hardest functions'
 a=s.find('## 11. As built')
 b=s.find(marker)
